@@ -1,6 +1,6 @@
 (** C16 — non-vacuity: concrete non-trivial instances meet the hypotheses of the theorems. *)
 From Coq Require Import ZArith QArith Qround List Bool Lia Lqa.
-From KV Require Import Base.Outcome Base.Num C06.Model C06.Dur C06.Proofs C16.Model C16.ProofsWitness C16.ProofsProtocol
+From KV Require Import Base.IEEE Base.Outcome Base.Num C06.Model C06.Dur C06.Proofs C16.Model C16.ProofsWitness C16.ProofsProtocol
   C16.ProofsStale C16.ProofsScaling.
 Import ListNotations.
 Local Open Scope Z_scope.
@@ -46,3 +46,10 @@ Example filter_example :
   filter_arg (1 # 10000) (1 # 2) 1000 (dt_of 44100) == filter_arg (1 # 10000) (1 # 2) 2000 (dt_of 88200) /\
   filter_arg (1 # 10000) (1 # 2) 1000 (dt_of 44100) == 1000 / 44100.
 Proof. vm_compute. split; reflexivity. Qed.
+
+(** F35 (repaired): delay times that are a whole number of frames; the integer computation gives the exact count,
+    the former binary64 computation came out one frame short *)
+Lemma f35_regression_l :
+  (delay_frames_int 35750000 48000 = 1716 /\ delay_frames_int 1001000000 8000 = 8008 /\
+   @delay_frames f64 _ _ 35750000 48000 = 1715 /\ @delay_frames f64 _ _ 1001000000 8000 = 8007)%Z.
+Proof. vm_compute. repeat split; reflexivity. Qed.
